@@ -580,8 +580,34 @@ fn execute(topo: &Topo, via_engine: bool, steps: &[Step], report: &mut Report, l
         report.sample(|| json!({"engine": via_engine, "source": label, "steps": steps}));
     }
     if let Err((sig, detail, _)) = res {
-        let small = shrink(steps, |cand| matches!(run_history(topo, via_engine, cand, &mut Stats::default()), Err((s, _, _)) if s == sig));
-        let detail = match run_history(topo, via_engine, &small, &mut Stats::default()) {
+        let fails = |cand: &[Step]| matches!(run_history(topo, via_engine, cand, &mut Stats::default()), Err((s, _, _)) if s == sig);
+        let mut small = shrink(steps, fails);
+        // second stage: drop single entries of full snapshots while the same rule still fires
+        let mut k = 0;
+        while k < small.len() {
+            let (nb, no) = match &small[k] {
+                Step::Full { bals, ords, .. } => (bals.len(), ords.len()),
+                _ => (0, 0),
+            };
+            for pos in (0..nb + no).rev() {
+                let mut cand = small.clone();
+                if let Step::Full { bals, ords, .. } = &mut cand[k] {
+                    if bals.len() + ords.len() <= 1 {
+                        break;
+                    }
+                    if pos < nb {
+                        bals.remove(pos);
+                    } else {
+                        ords.remove(pos - nb);
+                    }
+                }
+                if fails(&cand) {
+                    small = cand;
+                }
+            }
+            k += 1;
+        }
+        let detail =match run_history(topo, via_engine, &small, &mut Stats::default()) {
             Err((_, d, _)) => d,
             Ok(()) => detail,
         };
@@ -843,7 +869,7 @@ fn main() {
     let small = args.tier == "miri" || args.tier == "tsan";
     let extra = if args.is_thorough() { 3 } else { 2 };
     let n_random = match args.tier.as_str() {
-        "miri" => 12,
+        "miri" => 20,
         "tsan" => 200,
         _ => args.size(50_000, 5_000_000),
     };
